@@ -219,3 +219,19 @@ def check(ctx):
     dm = [im for im in ctx.prog.impls if norm(im.get("trait") or "") == "std::ops::DerefMut" and norm(im.get("self_adt") or "") == RG]
     ctx.ob("R-API", RG, "read-guard-no-derefmut", not dm, "RwLockReadGuard does not implement DerefMut" if not dm else "RwLockReadGuard implements DerefMut: readers can mutate", None, nontrivial=False)
     ctx.import_rules("C02", r"^(sync-blocker|blocker|fast-blocker|thread-park)/")
+    # try_lock reports WouldBlock only behind an observation that the lock is taken (a non-zero count or a lost CAS): a free lock can be try-acquired
+    taken_seen = lambda a: (a.kind == "cmp" and a.op == "Ne" and is_call_result(A("load"), R + ".cnt")(a.a) and is_const(0)(a.b)) or \
+                           (a.kind == "variant" and a.name == "Err" and simplify(a.origin)[0] == "call" and re.fullmatch(A("compare_exchange(_weak)?"), simplify(a.origin)[2] or "") is not None)
+    ctx.guarded(R + "::try_lock", Agg(r"(std|core)::result::Result", "Err", transitive=False), taken_seen, "try-lock/would-block-only-if-taken",
+                "RwLock::try_lock answers WouldBlock only after it saw the lock taken (cnt != 0 or a lost CAS): once every guard is dropped try_write / try_read succeed again",
+                rule="R-EXIT", pred_label="edge `cnt.load() != 0` / CAS is Err")
+    # a reader / writer that is cancelled while it waits for the internal lock releases what it holds of the reader mutex before it panics
+    canceled_lock = lambda a: a.kind == "variant" and a.name == "Canceled" and root_of(simplify(a.origin))[0] == "call" and (root_of(simplify(a.origin))[2] or "").endswith("rwlock::RwLock::lock")
+    if ctx.edges(ctx.prog.fn(R + "::read"), canceled_lock) if ctx.prog.fn(R + "::read") is not None else False:
+        TRG = Call(r"may::cancel::trigger_cancel_panic", transitive=False)
+        ctx.must_follow(R + "::read", None, Call(r"may::sync::mutex::unlock_mutex|may::sync::mutex::Mutex::unlock", transitive=False), "read/canceled-releases-reader-mutex",
+                        "a read() that is cancelled while it waits for the lock releases the reader mutex (its guard is forgotten) before it raises the Cancel panic", rule="R-PAIR",
+                        edge=canceled_lock, edge_label="edge `self.lock()` is Err(Canceled)", exits=lambda g: set(g.ret_points()) | ctx.an.sites(g, TRG, "must"))
+        ctx.guarded(R + "::read", TRG, canceled_lock, "read/cancel-panic-only-if-canceled", "read() raises the Cancel panic only when its wait was cancelled", rule="R-EXIT", pred_label="edge `self.lock()` is Err(Canceled)")
+    else:
+        ctx.missing("R-PAIR", R + "::read", "read/canceled-releases-reader-mutex", "no `Err(Canceled)` test on self.lock() in RwLock::read")
